@@ -724,7 +724,7 @@ let oracle (kind : string) (body : sexp list) (impl : string) : string option =
       if (match o with TRaw -> false | _ -> not (closed_sound_ok out))
       then Some "reject:C17 a delivery, or is_closed() = false, after is_closed() had answered true"
       else if timed_ok o ls out && not (timed_complete o ls out) then
-        Some "reject:C07 a notification was not delivered although its task was polled when it was due (no delay, or the timer its first poll created had elapsed) while the subscriber was still listening: the source's items and terminal must all come through"
+        Some "reject:C07 a notification was not delivered although its task was polled when it was due (no delay, or the timer its first poll created had elapsed) while the subscriber was still listening - or, for delay_subscription / subscribe_on, although the subscribing task had run: the source's items and terminal must all come through"
       else if timed_ok o ls out then Some "ok"
       else Some (match o with
                  | TRaw -> "reject:C19 (a task ran twice, early, out of sequence, after its handle was unsubscribed, or a handle reported closed too early)"
